@@ -90,7 +90,7 @@ class liouville_pathway(UnitsManaged):
         self.ne = 0
 
         # light induced transitions
-        self.transitions = numpy.zeros((order+1,2), dtype=numpy.int)
+        self.transitions = numpy.zeros((order+1,2), dtype=int)
         
         # relaxation induced transitions
         self.relaxations = [None]*relax_order
@@ -98,7 +98,7 @@ class liouville_pathway(UnitsManaged):
         # sides from which the transitions occurred
         self.sides = numpy.zeros(order+1,dtype=numpy.int16)
         
-        self.states = numpy.zeros((1+order+relax_order,2),dtype=numpy.int)
+        self.states = numpy.zeros((1+order+relax_order,2),dtype=int)
         
         # transition dipole moments associated with the transition
         self.dmoments = numpy.zeros((order+1,3))
